@@ -381,7 +381,7 @@ def nl(xs: list[int]) -> str:
 
 def translate() -> tuple[str, dict]:
     from translate import c11_dedup, c11_helpers, c11_norm, c11_records
-    tree = c11_norm.functions(c11_norm.struct_constants(ast.parse(src_text('bsp.py'))), None, consts=False, aliases='table-entries')
+    tree = c11_norm.module(src_text('bsp.py'))
     # the statement-shape matchers of this module read a normalised copy (constants, aliases, single-use locals, early continue)
     gtree = c11_norm.functions(tree, NORMALISED)
     r_expr, r_passes, r_src = vis_reader(gtree)
